@@ -268,6 +268,17 @@ func (g *guardEngine) minLenByConstruction(x ssa.Value, depth int) int64 {
 	case *ssa.Parameter:
 		return g.paramMinLen(v, depth)
 	}
+	// field of an object handed in as a parameter: what the callers' guards establish about
+	// that field of their argument
+	if ld, ok := x.(*ssa.UnOp); ok && ld.Op == token.MUL && depth < 2 {
+		if fa, ok := ld.X.(*ssa.FieldAddr); ok {
+			if par, ok := fa.X.(*ssa.Parameter); ok {
+				if m := g.paramFieldMinLen(par, fa.Field, depth); m > 0 {
+					return m
+				}
+			}
+		}
+	}
 	// field of a struct allocated in this function, assigned exactly once
 	if ld, ok := x.(*ssa.UnOp); ok && ld.Op == token.MUL {
 		if fa, ok := ld.X.(*ssa.FieldAddr); ok {
@@ -655,7 +666,17 @@ func (g *guardEngine) discharge(s guardSite) string {
 		if s.needLen == 1 && g.ensuredNonEmpty(s, x) {
 			return "ensure-non-empty idiom: a dominating `if len(x.F) == 0 { x.F = <non-empty> }` precedes the site"
 		}
+		if s.needLen == 1 && g.validIndexExists(s, x) {
+			return "an index of the same slice returned by a search helper is known to be >= 0 here, so the slice is not empty"
+		}
 		return g.dischargeBySymLen(s)
+	}
+	// the index was returned by a search helper (an index of its slice argument, or a negative
+	// constant for "not found") and is tested to be non-negative
+	if call, ok := s.idx.(*ssa.Call); ok && !s.idxIsBound {
+		if k, ok := g.indexResultOver(call); ok && k < len(call.Call.Args) && (call.Call.Args[k] == x || g.same(call.Call.Args[k], x)) && g.intMinFrom(call, s.ins.Block(), -1) >= 0 {
+			return "index returned by a search helper over the same slice, used only where it is >= 0"
+		}
 	}
 	// the length of x is a known value n (x = make(T, n), possibly built by a helper, or nil
 	// when n == 0): facts about n and loops bounded by n discharge the site
@@ -1279,7 +1300,13 @@ func (g *guardEngine) zeroOnEdge(n ssa.Value, pred, blk *ssa.BasicBlock) bool {
 // intMin: a lower bound on the integer value n at block b from dominating comparisons with
 // constants (n == k, n >= k, n > k and their negated forms).
 func (g *guardEngine) intMin(n ssa.Value, b *ssa.BasicBlock) int64 {
-	var min int64
+	return g.intMinFrom(n, b, 0)
+}
+
+// intMinFrom: like intMin, starting from the given floor (use a negative floor to ask whether
+// a signed value is known to be non-negative).
+func (g *guardEngine) intMinFrom(n ssa.Value, b *ssa.BasicBlock, floor int64) int64 {
+	min := floor
 	consider := func(cond ssa.Value, pol bool) {
 		cmp, ok := cond.(*ssa.BinOp)
 		if !ok {
@@ -1392,6 +1419,110 @@ func (g *guardEngine) prefixOf(y, x ssa.Value, depth int) bool {
 			}
 		}
 		return len(v.Edges) > 0
+	}
+	return false
+}
+
+// paramFieldMinLen: the smallest length that the callers' dominating guards establish for
+// field `field` of the argument bound to par (0 when the function escapes, has no caller, or
+// is written to between the guard and the call — not tracked: the guard must dominate the call).
+func (g *guardEngine) paramFieldMinLen(par *ssa.Parameter, field int, depth int) int64 {
+	fn := par.Parent()
+	idx := -1
+	for i, q := range fn.Params {
+		if q == par {
+			idx = i
+		}
+	}
+	calls, asValue := directCallSites(g.p, fn)
+	if idx < 0 || asValue || len(calls) == 0 {
+		return 0
+	}
+	min := int64(-1)
+	for _, call := range calls {
+		if idx >= len(call.Common().Args) {
+			return 0
+		}
+		arg := call.Common().Args[idx]
+		var m int64
+		for _, f := range append(g.factsAt(call.Block()), g.earlyExitFacts(call.Block())...) {
+			ld, ok := f.x.(*ssa.UnOp)
+			if !ok || ld.Op != token.MUL {
+				continue
+			}
+			fa, ok := ld.X.(*ssa.FieldAddr)
+			if !ok || fa.Field != field || !(fa.X == arg || g.same(fa.X, arg)) {
+				continue
+			}
+			if f.min > m {
+				m = f.min
+			}
+		}
+		if min < 0 || m < min {
+			min = m
+		}
+	}
+	if min < 0 {
+		return 0
+	}
+	return min
+}
+
+// indexResultOver: every return of the called module function is a negative integer constant
+// or the index of a forward loop over its k-th parameter; returns k.
+func (g *guardEngine) indexResultOver(call *ssa.Call) (int, bool) {
+	callee := call.Call.StaticCallee()
+	if callee == nil || !fnInModule(callee) || len(callee.Blocks) == 0 || callee.Signature.Results().Len() != 1 {
+		return 0, false
+	}
+	k, nIdx := -1, 0
+	for _, b := range callee.Blocks {
+		ret, ok := b.Instrs[len(b.Instrs)-1].(*ssa.Return)
+		if !ok {
+			continue
+		}
+		r := ret.Results[0]
+		if c, ok := constInt(r); ok {
+			if c >= 0 {
+				return 0, false
+			}
+			continue
+		}
+		bound, ok := forwardIndex(r)
+		if !ok {
+			return 0, false
+		}
+		par, ok := lenSlice(bound).(*ssa.Parameter)
+		if !ok {
+			return 0, false
+		}
+		idx := -1
+		for i, q := range callee.Params {
+			if q == par {
+				idx = i
+			}
+		}
+		if idx < 0 || (k >= 0 && k != idx) {
+			return 0, false
+		}
+		k = idx
+		nIdx++
+	}
+	return k, nIdx > 0
+}
+
+// validIndexExists: some search-helper result over x is known to be >= 0 at the site.
+func (g *guardEngine) validIndexExists(s guardSite, x ssa.Value) bool {
+	for _, b := range s.fn.Blocks {
+		for _, ins := range b.Instrs {
+			call, ok := ins.(*ssa.Call)
+			if !ok || !instrDominates(call, s.ins) {
+				continue
+			}
+			if k, ok := g.indexResultOver(call); ok && k < len(call.Call.Args) && (call.Call.Args[k] == x || g.same(call.Call.Args[k], x)) && g.intMinFrom(call, s.ins.Block(), -1) >= 0 {
+				return true
+			}
+		}
 	}
 	return false
 }
